@@ -4,7 +4,7 @@
    sizes.  Proof/ThriftCompactP.v and Proof/ThriftBinaryP.v show that the
    two protocols satisfy [proto_ok]. *)
 From Coq Require Import ZArith List Bool Lia.
-From Tally Require Import Base.Obs Model.Varint Model.Thrift Proof.VarintP.
+From Tally Require Import Base.ObsCore Model.Varint Model.Thrift Proof.VarintP.
 Import ListNotations.
 Open Scope Z_scope.
 
